@@ -424,8 +424,9 @@ def run(prog, ctx):
     ctx.rule("R03.1", "fermionic wrappers follow the single pair-sign convention (shared with C03)")
     ctx.rule("R13.4", "the truncated variant truncates and re-indexes U, s, VH together (shared with C13)")
     ctx.rule("R11.4", "stabilised QR: the sign correction is +1 / +1 / -1 on zero / positive / negative pivots, applied to Q's columns and R's rows")
-    check_factor_bonds(prog, ctx)
-    check_eigh_solve(prog, ctx)
-    check_stabilized(prog, ctx)
-    check_convention(prog, ctx)
-    check_together(prog, ctx)
+    qr_ = prog.func("symmray.linalg:qr")
+    ctx.guarded("R11.1", qr_, check_factor_bonds, prog, ctx)
+    ctx.guarded("R11.3", prog.func("symmray.linalg:eigh"), check_eigh_solve, prog, ctx)
+    ctx.guarded("R11.4", prog.func("symmray.linalg:_get_qr_fn"), check_stabilized, prog, ctx)
+    ctx.guarded("R03.1", prog.func("symmray.linalg:qr_fermionic"), check_convention, prog, ctx)
+    ctx.guarded("R13.4", prog.func("symmray.linalg:svd_truncated"), check_together, prog, ctx)
